@@ -1,5 +1,9 @@
 #!/bin/bash
-# run all thorough tiers sequentially from the snapshot, own target base
-export GOMLMC_TARGET_BASE=/root/.vp/runs/tb/t
-mkdir -p /root/.vp/runs/tb
-for i in $(seq -w 1 20); do s=$(date +%s); ./check C$i --tier thorough > C$i.thorough.log 2>&1; rc=$?; e=$(date +%s); echo "C$i rc=$rc t=$((e-s))s viol=$(grep -c ^VIOLATION C$i.thorough.log) known=$(grep -c ^KNOWN-FINDING C$i.thorough.log) :: $(tail -1 C$i.thorough.log | cut -c1-200)"; done
+# Background use only (vp run --with-repo -- ./tools/thorough_all.sh [ids...]): runs thorough tiers sequentially from the
+# snapshot with its own target base; builds against the snapshot of /repo's HEAD so that seeded patches applied
+# to /repo meanwhile are not picked up. Its logs are not evidence.
+if [ -n "${VP_RUN_REPO:-}" ]; then sed -i "s#/repo/crates#$VP_RUN_REPO/crates#" mc/Cargo.toml; fi
+export GOMLMC_TARGET_BASE=$PWD/.tb/t
+mkdir -p $PWD/.tb
+ids="$@"; [ -z "$ids" ] && ids=$(seq -w 1 20 | sed 's/^/C/')
+for c in $ids; do s=$(date +%s); ./check $c --tier thorough > $c.thorough.log 2>&1; rc=$?; e=$(date +%s); echo "$c rc=$rc t=$((e-s))s viol=$(grep -c ^VIOLATION $c.thorough.log) known=$(grep -c ^KNOWN-FINDING $c.thorough.log) :: $(tail -1 $c.thorough.log | cut -c1-200)"; done
